@@ -72,7 +72,8 @@ def run(ctx):
     pb2 = pl.gen_behaviours(ctx, "pipeline", "LazyPipeline_gen.cfg", n // 3, 120, label="pipeline generator (free interleaving)")
     life = lambda b: any(s["a"] in ("Cancel", "TClose") for s in b["steps"]) or pl.interesting(b)
     rb, rb2, pb, pb2 = [[b for b in x if life(b)] for x in (rb, rb2, pb, pb2)]
-    rscripts = pl.expand_repeat(pl.reuse_lifecycle_scenarios(T)) + \
+    rscripts = pl.expand_repeat(pl.reuse_lifecycle_scenarios(T) + [pl.reuse_cancel_scenarios(T)[k] for k in (
+        "idle-deadline-held", "cancel-then-next-before-late-reply", "late-reply-then-reuse")]) + \
         [pl.beh_to_script("reuse", b, "tlc-%d" % i) for i, b in enumerate(rb)] + \
         [pl.beh_to_script("reuse", b, "tlcfree-%d" % i, 400) for i, b in enumerate(rb2)]
     pscripts = pl.expand_repeat(pl.pipeline_scenarios(T)) + \
